@@ -146,6 +146,9 @@ pub enum TyPred {
     /// a node C2 occurs as a *direct* argument of a node C1 (optionally at a given argument index)
     Direct(String, String),
     DirectAt(String, usize, String),
+    /// like Direct, but looking through the transparent constructors (`&T`, and the success arm of
+    /// `Result`) between C1 and C2: the translator renders those as their argument
+    DirectT(String, String),
     /// a node C2 occurs anywhere strictly below a node C1
     Under(String, String),
     /// root constructor is C
@@ -166,6 +169,19 @@ impl TyPred {
             }),
             TyPred::DirectAt(p, i, c) => t.any_node(&|n| {
                 n.ctor_matches(p) && n.children().get(*i).is_some_and(|ch| ch.ctor_matches(c))
+            }),
+            TyPred::DirectT(p, c) => t.any_node(&|n| {
+                n.ctor_matches(p)
+                    && n.children().iter().any(|ch| {
+                        let mut cur: &RTy = ch;
+                        loop {
+                            match cur {
+                                RTy::Ref(inner) | RTy::Result1(inner) | RTy::Result2(inner, _) => cur = inner,
+                                _ => break,
+                            }
+                        }
+                        cur.ctor_matches(c)
+                    })
             }),
             TyPred::Under(p, c) => t.any_node(&|n| {
                 n.ctor_matches(p)
@@ -405,6 +421,11 @@ pub fn finish(res: CheckResult, tier: Tier, started: Instant) -> i32 {
     }
     const MAX_PRINT: usize = 25;
     unknown.sort_by_key(|v| (v.rank, v.key()));
+    // developer aid (never part of a verdict): dump every unlisted violation for triage
+    if let Ok(path) = std::env::var("TTV_DUMP") {
+        let lines: Vec<String> = unknown.iter().map(|v| format!("{}\t{}", v.key(), v.detail.replace('\n', " "))).collect();
+        let _ = std::fs::write(path, lines.join("\n"));
+    }
     for (i, v) in unknown.iter().enumerate() {
         if i < MAX_PRINT {
             let p = write_replay(v);
